@@ -178,7 +178,9 @@ func c15WrapShapes() []*c15shape {
 	var out []*c15shape
 	const M = 0xFFFFFFFF
 	// the single-SOA answer: client up to date (equal / newer in serial arithmetic although smaller as an integer)
-	for _, p := range [][2]uint32{{M, M}, {M, 1}, {M - 1, 3}, {0x80000005, 7}, {5, 0x7FFFFFF0}} {
+	// … and with the serial 0 on either side (a legal serial, not "no serial"): client 0 / server 0, client 0 / server older
+	// than 0 in serial arithmetic, client newer than a server at 0
+	for _, p := range [][2]uint32{{M, M}, {M, 1}, {M - 1, 3}, {0x80000005, 7}, {5, 0x7FFFFFF0}, {0, 0}, {M, 0}, {0x80000001, 0}, {0, 1}, {0, 0x7FFFFFFF}} {
 		out = append(out, &c15shape{name: fmt.Sprintf("ixfr-uptodate-S%d-q%d", p[0], p[1]), ixfr: true, qser: p[1], recs: []c15rec{c15SOA(p[0])}})
 	}
 	// the server is newer in serial arithmetic although its serial is the smaller integer: one and two difference
